@@ -67,10 +67,41 @@ type TypeSpec interface {
 // For most types, this is the type itself. For Typedefs, it is the root
 // TypeSpec of the Typedef's target.
 func RootTypeSpec(s TypeSpec) TypeSpec {
-	if t, ok := s.(*TypedefSpec); ok {
+	t, ok := s.(*TypedefSpec)
+	if !ok {
+		return s
+	}
+	if t.root != nil {
 		return t.root
 	}
-	return s
+
+	// The root of this typedef was not known when it was linked. This
+	// happens when a chain of typedefs leads to a struct which refers back
+	// to one of the typedefs: depending on where linking started, a typedef
+	// in the chain is linked while its target is still being linked. Follow
+	// the chain instead of relying on the value cached at link time.
+	seen := make(map[*TypedefSpec]struct{})
+	for {
+		if _, ok := seen[t]; ok {
+			// Typedef cycles are reported once linking is done.
+			return nil
+		}
+		seen[t] = struct{}{}
+
+		if t.root != nil {
+			return t.root
+		}
+
+		switch target := t.Target.(type) {
+		case nil, typeSpecReference:
+			// Not linked yet.
+			return nil
+		case *TypedefSpec:
+			t = target
+		default:
+			return target
+		}
+	}
 }
 
 // nativeThriftType is the common parent for all TypeSpecs that are native
